@@ -186,5 +186,33 @@ def run(ctx):
     tr, tid = pair_traces(tid, obs2, tabs2, flips)
     all_traces += tr
     ctx.extra["sign_flip_pairs"] = len(flips)
+    # sampled 4..6-qubit states (independent sampler) against related states: another generating set of the same
+    # state (F = 1), one generator sign flipped (F = 0), one more gate (F in {0, 1/2, 1}), an unrelated state
+    obs4, tabs4, rel = [], [], []
+
+    def add_state(rows):
+        t = pj.rows_to_tableau(sg.random_destabilizers(rng, rows), rows)
+        o = pj.tab_obs(t)
+        o["kind"] = "T"
+        obs4.append(o)
+        tabs4.append(t)
+        return len(tabs4) - 1
+
+    for n, k in ((4, 60), (5, 40), (6, 12)) if ctx.quick else ((4, 1500), (5, 1000), (6, 300)):
+        for _ in range(k):
+            rows = sg.random_state_rows(rng, n)
+            i = add_state(rows)
+            flipped = [dict(r) for r in sg.random_regauge(rng, rows)]
+            flipped[rng.randrange(n)]["s"] ^= 1
+            a, b = rng.sample(range(n), 2)
+            others = [sg.random_regauge(rng, rows), flipped,
+                      sg.random_regauge(rng, sg.conj_rows(rows, rng.choice(["H", "S", "CX"]), a, b)),
+                      sg.random_state_rows(rng, n)]
+            for o_rows in others:
+                j = add_state(o_rows)
+                rel += [(i, j, "fidelity"), (i, j, "eq"), (j, i, "infidelity")]
+    tr, tid = pair_traces(tid, obs4, tabs4, rel, chunk=60)
+    all_traces += tr
+    ctx.extra["pairs_n4to6_sampled"] = len(rel)
     ctx.judge("Trace_StabFn", all_traces, label="G: fidelity / equality / canonical form on enumerated states")
     ctx.assumptions.append("float results are compared as exact dyadic rationals (|x - p/q| <= 1e-9, q <= 2^20)")
